@@ -100,6 +100,11 @@ struct LoopContext {
     /// Iterator register for for-of loops (for iterator close protocol)
     /// When set, break/return/throw should call iterator.return()
     iterator_reg: Option<Register>,
+    /// False for switch statements and labeled statements: `break` can target
+    /// them, an unlabeled `continue` cannot
+    is_loop: bool,
+    /// False for labeled statements: only a labeled `break` targets them
+    is_switch: bool,
 }
 
 impl Compiler {
@@ -265,7 +270,19 @@ impl Compiler {
             continue_depths: Vec::new(),
             continue_scope_depth: self.scope_depth,
             iterator_reg,
+            is_loop: true,
+            is_switch: false,
         });
+    }
+
+    /// Push a context that only `break` (and a labeled `continue` of the loop it wraps) can target
+    fn push_break_target(&mut self, label: Option<JsString>) {
+        let is_switch = label.is_none();
+        self.push_loop(label);
+        if let Some(ctx) = self.loop_stack.last_mut() {
+            ctx.is_loop = false;
+            ctx.is_switch = is_switch;
+        }
     }
 
     /// Emit PushScope and track the block-scope depth
@@ -378,8 +395,8 @@ impl Compiler {
             })?
         } else {
             self.loop_stack
-                .len()
-                .checked_sub(1)
+                .iter()
+                .rposition(|ctx| ctx.is_loop || ctx.is_switch)
                 .ok_or_else(|| JsError::syntax_error_simple("Illegal break statement"))?
         };
 
@@ -428,8 +445,8 @@ impl Compiler {
             })?
         } else {
             self.loop_stack
-                .len()
-                .checked_sub(1)
+                .iter()
+                .rposition(|ctx| ctx.is_loop)
                 .ok_or_else(|| JsError::syntax_error_simple("Illegal continue statement"))?
         };
 
